@@ -1620,7 +1620,9 @@ func (sc *serverConn) processFrame(f Frame) error {
 						Val: s.Val,
 					})
 				}
+				md.HTTP2Frames.Lock()
 				md.HTTP2Frames.Settings = settings
+				md.HTTP2Frames.Unlock()
 			}
 		}
 		return sc.processSettings(f)
@@ -1630,6 +1632,7 @@ func (sc *serverConn) processFrame(f Frame) error {
 			for _, h := range f.Fields {
 				headers = append(headers, metadata.HeaderField(h))
 			}
+			md.HTTP2Frames.Lock()
 			md.HTTP2Frames.Headers = headers
 			if f.HasPriority() {
 				md.HTTP2Frames.Priorities = append(md.HTTP2Frames.Priorities,
@@ -1640,13 +1643,16 @@ func (sc *serverConn) processFrame(f Frame) error {
 						Weight:    f.Priority.Weight,
 					})
 			}
+			md.HTTP2Frames.Unlock()
 		}
 		return sc.processHeaders(f)
 	case *WindowUpdateFrame:
 		if md, ok := metadata.FromContext(sc.baseCtx); ok {
+			md.HTTP2Frames.Lock()
 			if md.HTTP2Frames.WindowUpdateIncrement == 0 {
 				md.HTTP2Frames.WindowUpdateIncrement = f.Increment
 			}
+			md.HTTP2Frames.Unlock()
 		}
 		return sc.processWindowUpdate(f)
 	case *PingFrame:
@@ -1657,12 +1663,14 @@ func (sc *serverConn) processFrame(f Frame) error {
 		return sc.processResetStream(f)
 	case *PriorityFrame:
 		if md, ok := metadata.FromContext(sc.baseCtx); ok {
+			md.HTTP2Frames.Lock()
 			md.HTTP2Frames.Priorities = append(md.HTTP2Frames.Priorities, metadata.Priority{
 				StreamId:  f.StreamID,
 				StreamDep: f.PriorityParam.StreamDep,
 				Exclusive: f.PriorityParam.Exclusive,
 				Weight:    f.PriorityParam.Weight,
 			})
+			md.HTTP2Frames.Unlock()
 		}
 		return sc.processPriority(f)
 	case *GoAwayFrame:
